@@ -168,8 +168,12 @@ def explore_unit(res, run):
         except Infeasible:
             continue
         except IfaceViolation as ex:
+            # the function uses its stream parameter other than through write(bytes)/read(int): the
+            # guarantees of every property that assumes the stream contract fail for streams in general
             res.effects.extend(ctx.effects)
-            res.undecided.append((res.unit, f"iface: {ex}"))
+            ob = Obligation(f"{res.unit}/stream-used-only-through-read-and-write", ctx.pc, z3.BoolVal(False),
+                            info={"expected": "buffer used only through write(bytes) / read(int)", "got": str(ex)})
+            res.obligations.append(ob)
         except Undecided as ex:
             if ctx.check(timeout=SOLVER_TIMEOUT_MS) == z3.unsat:
                 continue        # the path is infeasible: nothing to decide
